@@ -282,6 +282,7 @@ package whispertool
 //@   ensures short_meta: len(src) < 16 ==> iswl(result1) && wlsize(result1) == 16
 //@   ensures short_list: len(src) >= 16 && metaOK(src) && len(src) < 16 + 12 * be32(src, 12) ==> iswl(result1) && wlsize(result1) == 16 + 12 * be32(src, 12)
 //@   ensures wl_asks_more: iswl(result1) ==> wlsize(result1) > len(src)
+//@   ensures wl_cases: iswl(result1) ==> (len(src) < 16 && wlsize(result1) == 16) || (len(src) >= 16 && wlsize(result1) == 16 + 12 * be32(src, 12))
 //@   ensures meta: len(src) >= 16 ==> h.aggregationMethod == be32(src, 0) && h.maxRetention fmod 4294967296 == be32(src, 4)
 //@                 && bits(h.xFilesFactor) == be32(src, 8) && h.archiveCount == be32(src, 12)
 //@   ensures decoded: len(src) >= 16 && len(src) >= 16 + 12 * be32(src, 12) && metaOK(src) ==> len(h.archiveInfoList) == be32(src, 12)
@@ -881,7 +882,7 @@ package whispertool
 
 //@ func (*Whisper).readHeader
 //@   props C07 C14 C15
-//@   requires w != nil && w.fileBuf != nil && w.pageSize >= 512 && w.pageSize <= 1073741824
+//@   requires w != nil && w.fileBuf != nil && w.pageSize >= 512 && w.pageSize <= 1073741824 && fileSize == fsize(w.fileBuf)
 //@   modifies w.header
 //@   allocates <= w.pageSize + 2 * fsize(w.fileBuf)
 //@   ensures ok: result == nil ==> validHeader(w.header) && hdrInBuf(frow(w.fileBuf), w.header) && 16 + 12 * len(w.header.archiveInfoList) <= fsize(w.fileBuf)
@@ -897,6 +898,11 @@ package whispertool
 //@                 && ghost(nopen, 0) == old(ghost(nopen, 0)) + 1
 //@                 && (forall k :: 0 <= k && k < fsize(result0.fileBuf) ==> fbyte(result0.fileBuf, k) == dbyte(result0.file, k))
 //@   ensures[C13] no_leak: result1 != nil ==> result0 == nil && ghost(nopen, 0) == old(ghost(nopen, 0)) && ghost(nlocked, 0) == old(ghost(nlocked, 0))
+
+//@ loop Open#0
+//@   invariant w: w.pageSize >= 512 && w.pageSize <= 1073741824
+//@ loop Create#0
+//@   invariant w: w.pageSize >= 512 && w.pageSize <= 1073741824 && w.header == *h
 
 //@ func Create
 //@   props C13 C07 C05 C06 C20
